@@ -33,12 +33,15 @@ DR = 0.1
 EPS = np.finfo(float).eps
 
 
-def make(cname, alias, hc):
+FLAGREPR = {'bool': bool, 'np': np.bool_, 'int': int}      # how the caller spells the flag value (a flag computed with numpy is a np.bool_)
+
+
+def make(cname, alias, hc, flagrepr='bool'):
     import pyPRISM
     cls = getattr(pyPRISM.closure, CLOSURES[cname][1 if alias else 0])
     with warnings.catch_warnings():
         warnings.simplefilter('ignore')
-        return cls(apply_hard_core=hc)
+        return cls(apply_hard_core=FLAGREPR[flagrepr](hc))
 
 
 def positions(sigma):
@@ -88,7 +91,7 @@ def k1_form(cname, g, u, out):
 def case_product(rec, c):
     """One closure object, one sigma: the full (position x gamma x u) product in one array."""
     cname, alias, hc, sigma = c['closure'], c['alias'], c['hc'], c['sigma']
-    C = make(cname, alias, hc)
+    C = make(cname, alias, hc, c.get('flagrepr', 'bool'))
     pos = positions(sigma)
     combos = list(itertools.product(range(len(pos)), GAMMAS, US))
     r = np.array([pos[p][1] for p, _, _ in combos])
@@ -318,11 +321,14 @@ def run(rec, tier, seed):
                 for sigma in sig:
                     for alias in (False, True):
                         case_product(rec, {'kind': 'product', 'closure': cname, 'alias': alias, 'hc': hc, 'sigma': sigma})
+                    for fr in ('np', 'int'):
+                        case_product(rec, {'kind': 'product', 'closure': cname, 'alias': False, 'hc': hc, 'sigma': sigma, 'flagrepr': fr})
                     case_alias(rec, {'kind': 'alias', 'closure': cname, 'hc': hc, 'sigma': sigma})
                     case_rechain(rec, {'kind': 'rechain', 'closure': cname, 'hc': hc, 'sigma': sigma})
                 case_vectors(rec, {'kind': 'vectors', 'closure': cname, 'hc': hc})
                 case_linear(rec, {'kind': 'linear', 'closure': cname, 'hc': hc})
     rec.note('alphabets', {'closures': list(CLOSURES), 'gammas': GAMMAS, 'u': US, 'sigmas': sig,
-                           'positions': ['deep', 'in1', 'at (r == sigma exactly)', 'out1', 'far'], 'symbols': SYMBOLS})
+                           'positions': ['deep', 'in1', 'at (r == sigma exactly)', 'out1', 'far'], 'symbols': SYMBOLS,
+                           'flag_spellings': ['True/False', 'numpy.bool_', '1/0']})
     rec.sample({'kind': 'product', 'closure': 'HNC', 'alias': False, 'hc': True, 'sigma': 1.3})
     rec.sample({'kind': 'vectors', 'closure': 'PY', 'hc': False})
